@@ -313,7 +313,8 @@ def _gen_mixed_orders(rng, tier, specs):
     direction must get the Gauss rule of ITS order — measured directly and under the representation
     changes that permute/raise/split single directions."""
     nv = 8 if tier == 'quick' else len(VOL_ORDERS)
-    vols = VOL_ORDERS[:6] + rng.sample(VOL_ORDERS[6:], nv - 6) if nv < len(VOL_ORDERS) else list(VOL_ORDERS)
+    # the three arrangements with p = 4 > q = 2, 3 and one all-distinct triple always; the rest sampled
+    vols = (VOL_ORDERS[:7] + rng.sample(VOL_ORDERS[7:], nv - 7)) if nv < len(VOL_ORDERS) else list(VOL_ORDERS)
     for k, orders in enumerate(vols):
         o = _mixed_object(rng, orders, 3, interior=0 if (tier == 'quick' and max(orders) >= 5) else None)
         specs.append({'form': 'volume', 'obj': o})
